@@ -255,8 +255,135 @@ let run_proxy (args : string list) : string =
            | _ -> raise (Unsupported op))) ops;
     String.concat " " (List.rev !out)
 
+(* ---- endpoints.  IPv6 text form (std::net::Ipv6Addr FromStr / Display) is supplied here, as the
+   instantiation of the model's Section variables parse6 / fmt6: hand-written, trusted, and
+   differential-tested against the real std through the endpoint cases. ---- *)
+let utf8_decode (b : int list) : int list option =
+  let rec go acc = function
+    | [] -> Some (List.rev acc)
+    | c :: t when c < 0x80 -> go (c :: acc) t
+    | c :: c1 :: t when c land 0xe0 = 0xc0 -> go ((((c land 0x1f) lsl 6) lor (c1 land 0x3f)) :: acc) t
+    | c :: c1 :: c2 :: t when c land 0xf0 = 0xe0 -> go ((((c land 0x0f) lsl 12) lor ((c1 land 0x3f) lsl 6) lor (c2 land 0x3f)) :: acc) t
+    | c :: c1 :: c2 :: c3 :: t when c land 0xf8 = 0xf0 ->
+        go ((((c land 0x07) lsl 18) lor ((c1 land 0x3f) lsl 12) lor ((c2 land 0x3f) lsl 6) lor (c3 land 0x3f)) :: acc) t
+    | _ -> None in
+  go [] b
+let utf8_encode (cs : int list) : int list =
+  List.concat_map (fun c ->
+    if c < 0x80 then [c]
+    else if c < 0x800 then [0xc0 lor (c lsr 6); 0x80 lor (c land 0x3f)]
+    else if c < 0x10000 then [0xe0 lor (c lsr 12); 0x80 lor ((c lsr 6) land 0x3f); 0x80 lor (c land 0x3f)]
+    else [0xf0 lor (c lsr 18); 0x80 lor ((c lsr 12) land 0x3f); 0x80 lor ((c lsr 6) land 0x3f); 0x80 lor (c land 0x3f)]) cs
+
+(* std::net parser: groups of 1-4 hex digits, one optional "::" standing for >= 1 zero group,
+   optional dotted IPv4 in the last two groups (octets 1-3 digits, no leading zero) *)
+let ip6_parse (s : int list) : int list option =
+  let str = String.init (List.length s) (fun i -> let c = List.nth s i in if c < 128 then Char.chr c else '?') in
+  if List.exists (fun c -> c >= 128) s then None else
+  let n = String.length str in
+  let is_hex c = (c >= '0' && c <= '9') || (c >= 'a' && c <= 'f') || (c >= 'A' && c <= 'F') in
+  let hexv c = if c <= '9' then Char.code c - 48 else (Char.code (Char.lowercase_ascii c) - 87) in
+  let read_ipv4 pos =
+    (* returns Some (a,b,c,d,newpos) *)
+    let read_octet p =
+      let q = ref p in
+      while !q < n && !q - p < 3 && str.[!q] >= '0' && str.[!q] <= '9' do incr q done;
+      if !q = p then None else
+      let t = String.sub str p (!q - p) in
+      if String.length t > 1 && t.[0] = '0' then None else
+      let v = int_of_string t in if v > 255 then None else Some (v, !q) in
+    match read_octet pos with
+    | None -> None
+    | Some (a, p1) -> if p1 >= n || str.[p1] <> '.' then None else
+      (match read_octet (p1 + 1) with
+       | None -> None
+       | Some (b, p2) -> if p2 >= n || str.[p2] <> '.' then None else
+         (match read_octet (p2 + 1) with
+          | None -> None
+          | Some (c, p3) -> if p3 >= n || str.[p3] <> '.' then None else
+            (match read_octet (p3 + 1) with
+             | None -> None
+             | Some (d, p4) -> Some (a, b, c, d, p4)))) in
+  let read_group pos =
+    let q = ref pos in
+    while !q < n && !q - pos < 4 && is_hex str.[!q] do incr q done;
+    if !q = pos then None else begin
+      let v = ref 0 in
+      for i = pos to !q - 1 do v := !v * 16 + hexv str.[i] done;
+      Some (!v, !q)
+    end in
+  (* read up to limit groups starting at pos; returns (groups, used_ipv4, newpos) *)
+  let read_groups pos limit =
+    let rec go i pos acc =
+      if i >= limit then (List.rev acc, false, pos) else
+      let start = if i = 0 then Some pos else (if pos < n && str.[pos] = ':' then Some (pos + 1) else None) in
+      match start with
+      | None -> (List.rev acc, false, pos)
+      | Some p ->
+        let v4 = if i < limit - 1 then read_ipv4 p else None in
+        (match v4 with
+         | Some (a, b, c, d, np) -> (List.rev ((c * 256 + d) :: (a * 256 + b) :: acc), true, np)
+         | None ->
+           (match read_group p with
+            | Some (v, np) -> go (i + 1) np (v :: acc)
+            | None -> (List.rev acc, false, pos))) in
+    go 0 pos [] in
+  let (head, head_v4, p) = read_groups 0 8 in
+  if List.length head = 8 then (if p = n then Some head else None)
+  else if head_v4 then None
+  else if not (p + 1 < n && str.[p] = ':' && str.[p + 1] = ':') then None
+  else begin
+    let limit = 8 - (List.length head + 1) in
+    let (tail, _, p2) = read_groups (p + 2) limit in
+    if p2 <> n then None else
+    Some (head @ List.init (8 - List.length head - List.length tail) (fun _ -> 0) @ tail)
+  end
+
+let ip6_fmt (g : int list) : int list =
+  let s =
+    match g with
+    | [0;0;0;0;0;0;0;0] -> "::"
+    | [0;0;0;0;0;0;0;1] -> "::1"
+    | [0;0;0;0;0;0xffff;a;b] -> Printf.sprintf "::ffff:%d.%d.%d.%d" (a lsr 8) (a land 255) (b lsr 8) (b land 255)
+    | _ ->
+      (* longest run of zeros (length > 1), first one on ties *)
+      let arr = Array.of_list g in
+      let best = ref (-1, 0) and cur = ref (-1, 0) in
+      Array.iteri (fun i v ->
+        if v = 0 then begin
+          (if fst !cur < 0 then cur := (i, 1) else cur := (fst !cur, snd !cur + 1));
+          if snd !cur > snd !best then best := !cur
+        end else cur := (-1, 0)) arr;
+      let (bs, bl) = !best in
+      let hexs lo hi = String.concat ":" (List.init (hi - lo) (fun i -> Printf.sprintf "%x" arr.(lo + i))) in
+      if bl > 1 then hexs 0 bs ^ "::" ^ hexs (bs + bl) 8 else hexs 0 8 in
+  List.init (String.length s) (fun i -> Char.code s.[i])
+
+let run_ep (args : string list) : string =
+  let b = List.map int_of_n (bytes_tok (List.hd args)) in
+  match utf8_decode b with
+  | None -> "not-utf8"
+  | Some cs ->
+    let p6 (s : coq_N list) = match ip6_parse (List.map int_of_n s) with Some g -> Some (List.map n_of_int g) | None -> None in
+    let f6 (g : coq_N list) = List.map n_of_int (ip6_fmt (List.map int_of_n g)) in
+    let s = List.map n_of_int cs in
+    (match Endpoint.parse_endpoint p6 s with
+     | None -> "err"
+     | Some e ->
+       let canon = match e with
+         | Endpoint.ETcp (Endpoint.HIp4 (a, b, c, d), p) -> Printf.sprintf "tcp:ip4:%d.%d.%d.%d:%d" (int_of_n a) (int_of_n b) (int_of_n c) (int_of_n d) (int_of_n p)
+         | Endpoint.ETcp (Endpoint.HIp6 g, p) -> Printf.sprintf "tcp:ip6:%s:%d" (String.concat "." (List.map (fun x -> Printf.sprintf "%x" (int_of_n x)) g)) (int_of_n p)
+         | Endpoint.ETcp (Endpoint.HDomain d, p) -> Printf.sprintf "tcp:dom:%s:%d" (hex_of (List.map n_of_int (utf8_encode (List.map int_of_n d)))) (int_of_n p)
+         | Endpoint.EIpc path -> Printf.sprintf "ipc:%s" (hex_of (List.map n_of_int (utf8_encode (List.map int_of_n path)))) in
+       let text = Endpoint.fmt_endpoint f6 e in
+       let rt = match Endpoint.parse_endpoint p6 text with
+         | Some e2 -> if e2 = e then "ok" else "ne"
+         | None -> "err" in
+       Printf.sprintf "ok:%s rt=%s fmt=%s" canon rt (hex_of (List.map n_of_int (utf8_encode (List.map int_of_n text)))))
+
 let run_case kind (args : string list) : string =
   match kind with
+  | "ep" -> run_ep args
   | "proxy" -> (try run_proxy args with Unsupported s -> "model-unsupported " ^ s)
   | "ts" -> run_ts args
   | "fq" -> run_fq args
